@@ -251,6 +251,41 @@ def extract_ids(case):
     return ids, raw
 
 
+def babel_options(cfg, variant):
+    """the `options` dictionary of the Babel entry point for a configuration, written the way a
+    mapping file delivers it (strings) or the way a program passes it (lists / bool)"""
+    opts = {}
+    if list(cfg['ignore_tags']) != list(G.IGNORED):
+        opts['ignore_tags'] = ' '.join(cfg['ignore_tags']) if variant % 2 == 0 else list(cfg['ignore_tags'])
+    if list(cfg['include_attrs']) != list(G.INCL_ATTRS):
+        opts['include_attrs'] = ' '.join(cfg['include_attrs']) if variant % 2 == 0 else list(cfg['include_attrs'])
+    if not cfg['extract_text'] or variant % 3 == 0:
+        if variant % 2 == 0:
+            opts['extract_text'] = (['yes', 'True', 'on', '1'] if cfg['extract_text'] else ['no', 'False', 'off', '0'])[variant % 4]
+        else:
+            opts['extract_text'] = bool(cfg['extract_text'])
+    return opts
+
+
+def extract_ids_babel(case, variant=0):
+    """message ids reported by `genshi.filters.i18n.extract(fileobj, keywords, comment_tags, options)`,
+    the entry point the Babel plugin calls (option parsing, template construction, directive
+    registration and `Translator.extract` with `gettext_functions=keywords`)"""
+    import io
+    from genshi.filters import i18n
+    ids = set()
+    fileobj = io.BytesIO(src(case).encode('utf-8'))
+    for lineno, func, msg, comments in i18n.extract(fileobj, i18n.GETTEXT_FUNCTIONS, [], babel_options(case['cfg'], variant)):
+        if isinstance(msg, tuple):
+            parts = list(msg)
+            if func in ('pgettext', 'pngettext', 'dpgettext', 'dnpgettext', 'npgettext'):
+                parts = parts[1:]
+            ids.update(p for p in parts if isinstance(p, str))
+        elif isinstance(msg, str):
+            ids.add(msg)
+    return ids
+
+
 # --------------------------------------------------------------------------
 # (2) excluded parts
 
@@ -765,6 +800,20 @@ def oracle_case(case):
                 missing = sorted(set(i for i in cat.ids(case.get('count_probe', False)) if has_letter(i) and i not in ids))
                 if missing:
                     bad('every looked-up message id containing a letter is extracted', sorted(ids), missing)
+                else:
+                    # the same through the entry point of the Babel plugin, the configuration written as
+                    # its `options` (strings as in a mapping file, or lists / bool)
+                    try:
+                        bids = extract_ids_babel(case, seed)
+                    except Exception as e:  # noqa
+                        bids = None
+                        bad('extraction through the Babel entry point succeeds on a template that renders', 'messages',
+                            'raised ' + type(e).__name__)
+                    if bids is not None:
+                        missing = sorted(set(i for i in cat.ids(case.get('count_probe', False)) if has_letter(i) and i not in bids))
+                        if missing:
+                            bad('every looked-up message id containing a letter is extracted through the Babel entry point '
+                                '(options %r)' % (babel_options(case['cfg'], seed),), sorted(bids), missing)
     else:
         if 'placeholders' in checks and w != r:
             bad('catalogue %s: placeholders are replaced by the original elements, each once, in the translator\'s order' % kind,
